@@ -137,6 +137,21 @@ def run(rep, tier, seed, replay=None):
             rep.add_violation('regression corpus case %d no longer returns a finite layout (%s)' % (i, out_.strip()[-120:] or 'process died / timed out'),
                               {'corpus': i, 'cmd': 'vh c03 corpus %d' % i})
     rep.cov['regression_corpus_ok'] = corpus_ok
+    # "accessor and mutator calls with out-of-range child indices return an error rather than panic": deterministic sweep of every
+    # index-taking TaffyTree method around the bounds (the theorem C03_index_errors is about the C14 model of the same methods)
+    rc_, out_ = vh(binp, ['c03', 'indexerrors'], timeout=60)
+    m_ = re.search(r'^INDEXERRORS calls (\d+)', out_, re.M)
+    if not m_:
+        rep.add_broken('search', 'vh c03 indexerrors', out_[-400:])
+    else:
+        rep.cov['index_error_calls'] = int(m_.group(1))
+        kf = [k for k in known_findings('C03') if k.get('id') == 'remove-children-range-panics' and k.get('status') == 'known']
+        bad_lines = [l for l in out_.split('\n') if l.startswith(('PANIC ', 'ACCEPTED ', 'CHANGED '))]
+        known_lines = [l for l in bad_lines if l.startswith('PANIC remove_children_range ') and kf]
+        for l in [l for l in bad_lines if l not in known_lines][:3]:
+            rep.add_violation('out-of-range child index: %s' % l, {'cmd': 'vh c03 indexerrors', 'line': l})
+        if known_lines:
+            rep.known.append(kf[0]['line'].replace('known: property=C03 ', '') + '  [%d of %d out-of-range calls of this run]' % (len(known_lines), int(m_.group(1))))
     rep.cov['explanation'] = ('Totality is a theorem only for grid placement (Props/C03.v: no overflow, no out-of-bounds, no negative expansion, '
                               'termination, on the stated domain), tied by the placement correspondence in release and debug builds. Everything else in '
                               'C03 (no panic / hang / blow-up / non-finite output anywhere in compute_layout) is explored: regression corpus of repaired '
